@@ -217,7 +217,9 @@ func staleHandleScenario(c *sup.Ctx) {
 			}
 		}
 	}
-	if follow == "recreate-same" && c.Local%4 >= 2 {
+	if follow == "recreate-same" && c.Local%4 == 2 {
+		// (in the last quarter of these scenarios handle B does nothing by name before its DropDataStore further down,
+		// so that the drop still starts from the object cached for the first incarnation)
 		// handle B (which still caches the first incarnation and has not asked again) starts a backfill feed on the
 		// collection BY NAME: the collection that exists under that name holds A's three new documents (one a tombstone
 		// if it was deleted), and the snapshot must show them
